@@ -15,6 +15,7 @@ INNERS = {
     "InnerS": [("p", ("sc", "Int32")), ("q", ("arr", "Float64", (2,)))],
     # two dynamically sized fields: objects of equal total size can split it differently between x and y
     "Inner2": [("k", ("sc", "Int64")), ("x", ("arr", "Int32", (None,))), ("y", ("arr", "Int32", (None,)))],
+    "Mid": [("z", ("sc", "Int16")), ("inn", ("hyb", "Inner"))],  # a nested class that nests another one (three levels)
 }
 SPLITS = {"outer": (2, 3), "same": (3, 2), "other": (4, 1)}  # equal total sizes (Int32 items, slot rounding), different splits
 OUTERS = {
@@ -29,6 +30,7 @@ OUTERS = {
     "O9": [("inner", ("hyb", "Inner")), ("r", ("ref", "InnerS")), ("s", ("sc", "Float64"))],
     "O10": [("x", ("sc", "UInt8")), ("v", ("arr", "Float64", (None,))), ("s", ("str",))],
     "O11": [("piece", ("hyb", "Inner2")), ("s", ("sc", "Int64"))],
+    "O12": [("mid", ("hyb", "Mid")), ("t", ("sc", "Float64"))],
 }
 RENAMES = ["none", "first", "all"]
 
